@@ -62,6 +62,52 @@ def bad(node, why=""):
 EXN = {"ValueError", "IndexError", "HPACKDecodingError", "InvalidTableIndex",
        "OversizedHeaderListError", "InvalidTableSizeError", "TypeError", "UnicodeDecodeError"}
 
+# CPython's hierarchy above the built-in classes of EXN (the same table is Model/Exn.v's builtin_bases)
+BUILTIN_BASES = {"BaseException": [], "Exception": ["BaseException"], "LookupError": ["Exception"],
+                 "IndexError": ["LookupError"], "ValueError": ["Exception"], "UnicodeError": ["ValueError"],
+                 "UnicodeDecodeError": ["UnicodeError"], "TypeError": ["Exception"]}
+EXC_BASES = {}          # class -> bases, from exceptions.py of the tree under translation (set by main)
+HANDLER_LEAVES = set()  # the handler types that were translated as `catch` (exact constructor): Bridge/B_exn.v
+#                         re-proves, on the regenerated hierarchy, that each catches exactly its own constructor
+
+
+def exception_bases(tree):
+    """exceptions.py as data: every statement is a docstring, `from __future__ import ...` or a class whose header
+    names its bases and whose body is docstrings / pass -- nothing that could change how `raise` / `except` behave
+    (no metaclass, no __new__/__init__/__instancecheck__/__subclasshook__, no class attributes)"""
+    out = {}
+    for n in tree.body:
+        if isinstance(n, ast.Expr) and isinstance(n.value, ast.Constant) and isinstance(n.value.value, str):
+            continue
+        if isinstance(n, ast.ImportFrom) and n.module == "__future__":
+            continue
+        if not isinstance(n, ast.ClassDef):
+            raise Unsupported(f"exceptions.py line {n.lineno}: statement other than a class")
+        if n.keywords or n.decorator_list or not n.bases or not all(isinstance(b, ast.Name) for b in n.bases):
+            raise Unsupported(f"exceptions.py line {n.lineno}: class header of {n.name}")
+        for x in n.body:
+            if not (isinstance(x, ast.Pass) or (isinstance(x, ast.Expr) and isinstance(x.value, ast.Constant))):
+                raise Unsupported(f"exceptions.py line {x.lineno}: body of {n.name}")
+        if n.name in out or n.name in BUILTIN_BASES:
+            raise Unsupported(f"exceptions.py line {n.lineno}: {n.name} defined twice or shadows a built-in class")
+        for b in n.bases:
+            if b.id not in out and b.id not in BUILTIN_BASES:
+                raise Unsupported(f"exceptions.py line {n.lineno}: base {b.id} of {n.name} is not a known class")
+        out[n.name] = [b.id for b in n.bases]
+    return out
+
+
+def is_subclass(c, d):
+    if c == d:
+        return True
+    return any(is_subclass(b, d) for b in EXC_BASES.get(c, BUILTIN_BASES.get(c, [])))
+
+
+def handler_is_leaf(t):
+    """`except t:` catches, among the exceptions of the model, exactly the constructor t"""
+    return all(e == t or not is_subclass(e, t) for e in EXN)
+
+
 T_PAIR = ("tuple", ["bytes", "bytes"])
 
 # class -> (record type, {python attribute: (record field, type)})
@@ -1814,12 +1860,20 @@ class Tr:
                 if not (isinstance(hs, ast.Assign) and isinstance(hs.value, (ast.JoinedStr, ast.Constant))):
                     bad(hs, "statement in handler")
             to = h.body[-1].exc.func.id
+            if not EXC_BASES:
+                bad(s, "handler: the class hierarchy of exceptions.py could not be read")
+            if handler_is_leaf(h.type.id):
+                HANDLER_LEAVES.add(h.type.id)
+                catch_ = f"catch {h.type.id} {to}"
+            else:
+                # `except C:` also catches the subclasses of C: the relation is the regenerated one
+                catch_ = f"Exn.catch_h (Exn.hierarchy GExn.EXC_BASES) {h.type.id} {to}"
             if returning:
                 self.pure += 1
                 inner = self.B(s.body, env, lambda e: bad(s, "try block"))
                 self.pure -= 1
                 x = fn.tmp()
-                return self.bind(f"catch {h.type.id} {to} (\n{inner})", x, self.ret(x))
+                return self.bind(f"{catch_} (\n{inner})", x, self.ret(x))
             used_after = {x.id for r in rest for x in ast.walk(r) if isinstance(x, ast.Name)}
             vars_ = [v for v in self.assigned(s.body) if v in used_after]
             pat = _tuple(vars_)
@@ -1828,9 +1882,9 @@ class Tr:
                 self.pure += 1
                 inner = self.B(s.body, env, lambda e: (envb.update({v: e[v] for v in vars_}), f"Ok {pat}")[1])
                 self.pure -= 1
-                return self.bind(f"catch {h.type.id} {to} (\n{inner})", _binder(vars_), cont(envb))
+                return self.bind(f"{catch_} (\n{inner})", _binder(vars_), cont(envb))
             inner = self.B(s.body, env, lambda e: (envb.update({v: e[v] for v in vars_}), f"Ok {pat}")[1])
-            return f"{_binder(vars_)} <- catch {h.type.id} {to} (\n{inner}) ;;\n" + cont(envb)
+            return f"{_binder(vars_)} <- {catch_} (\n{inner}) ;;\n" + cont(envb)
         bad(s, "statement")
 
     def generator(self, fd, env):
@@ -2434,6 +2488,46 @@ def main():
     trees = {m: ast.parse(open(os.path.join(src, m + ".py")).read())
              for m in ("hpack", "table", "huffman", "huffman_constants", "huffman_table")}
 
+    # ---------------- GExn.v: the class headers of exceptions.py as data
+    EXC_BASES.clear()
+    HANDLER_LEAVES.clear()
+    try:
+        EXC_BASES.update(exception_bases(ast.parse(open(os.path.join(src, "exceptions.py")).read())))
+        status["exceptions.<class hierarchy>"] = "translated"
+    except (Unsupported, OSError, SyntaxError) as e:
+        status["exceptions.<class hierarchy>"] = f"unsupported: {e}"
+    # (an exception class name rebound anywhere in the translated modules would change what `raise C` means)
+    for m_, t_ in trees.items():
+        for x in ast.walk(t_):
+            nm = None
+            if isinstance(x, ast.Name) and not isinstance(x.ctx, ast.Load):
+                nm = x.id
+            elif isinstance(x, ast.arg):
+                nm = x.arg
+            elif isinstance(x, ast.alias) and x.asname is not None:
+                nm = x.asname if (x.asname in EXN or x.name in EXN) and x.asname != x.name else None
+            elif isinstance(x, ast.ExceptHandler) and x.name:
+                nm = x.name
+            elif isinstance(x, (ast.FunctionDef, ast.ClassDef)):
+                nm = x.name
+            if nm in EXN or nm in EXC_BASES:
+                EXC_BASES.clear()
+                status["exceptions.<class hierarchy>"] = f"unsupported: {m_}.py rebinds the exception class name {nm}"
+
+    def exn_file():
+        rows = ";\n   ".join('("%s", [%s])' % (c, "; ".join('"%s"' % b for b in bs)) for c, bs in EXC_BASES.items())
+        leaves = "; ".join(sorted(HANDLER_LEAVES))
+        body = ("(* GENERATED by tools/py2coq from /repo/src/hpack/exceptions.py -- do not edit *)\n"
+                "From Coq Require Import List String.\nFrom HV Require Import Prelude.Py.\nImport ListNotations.\n"
+                "Open Scope string_scope.\n\n")
+        if EXC_BASES:
+            body += ("(* class -> bases, in the order of the source *)\n"
+                     f"Definition EXC_BASES : list (string * list string) :=\n  [{rows}].\n")
+        else:
+            body += f"(* unsupported: {status['exceptions.<class hierarchy>']} *)\n"
+        return body
+    write_if_changed(os.path.join(out, "GExn.v"), exn_file())
+
     # ---------------- Data.v
     cenv = ConstEnv()
     data = []
@@ -2465,7 +2559,7 @@ def main():
 
     # ---------------- functions
     funs = {"table_entry_size": ("table_entry_size", ["bytes", "bytes"], ("total", "int"))}
-    imp = "From HV Require Import Gen.GData.\n"
+    imp = "From HV Require Import Gen.GData.\nFrom HV Require Model.Exn Gen.GExn.\n"
 
     def emit(fname, items, extra, pre=""):
         defs = [pre.rstrip("\n")] if pre else []
@@ -2856,6 +2950,12 @@ def main():
         if h.error is not None:
             status[h.key] = f"unsupported: {h.error}"
 
+    # the handler types that were translated as exact-constructor `catch`
+    write_if_changed(os.path.join(out, "GExnUse.v"),
+                     "(* GENERATED by tools/py2coq -- do not edit *)\nFrom Coq Require Import List.\n"
+                     "From HV Require Import Prelude.Py.\nImport ListNotations.\n\n"
+                     "(* the types T of the `except T:` handlers that Gen/ renders as [catch T] (exactly the constructor T) *)\n"
+                     f"Definition HANDLER_LEAVES : list exn := [{'; '.join(sorted(HANDLER_LEAVES))}].\n")
     write_if_changed(os.path.join(out, "status.json"), json.dumps(status, indent=1, sort_keys=True) + "\n")
     bad_ = {k: v for k, v in status.items() if v != "translated"}
     for k, v in sorted(bad_.items()):
